@@ -48,6 +48,10 @@ func init() {
 				"under the Commit face the checks are deferred to the end of the circuit, so that face is sampled; Native and Plain stop inside the canonicity sweep",
 			},
 			MinEvents: 100000,
+			Setup: func(ctx *fw.Ctx) error {
+				engine.SetRealHints(false) // large must-reject sweep: native fast path for honest hints
+				return nil
+			},
 			Gen: func(ctx *fw.Ctx) []fw.Case {
 				var cs []fw.Case
 				for _, name := range instNames(ctx.Quick) {
@@ -182,6 +186,10 @@ func init() {
 				"PublicInputs is included as a list (its length is fixed by the wrapper template, so appending/dropping must change the hash and be rejected)",
 			},
 			MinEvents: 10000,
+			Setup: func(ctx *fw.Ctx) error {
+				engine.SetRealHints(false) // large must-reject sweep: native fast path for honest hints
+				return nil
+			},
 			Gen: func(ctx *fw.Ctx) []fw.Case {
 				var cs []fw.Case
 				for _, name := range instNames(ctx.Quick) {
